@@ -190,7 +190,7 @@ def judge(ctx, w, store, append_order, blocked_while_storage, close_returned_wit
         ctx.violation('a producer had to wait for the buffer lock while the flusher was inside a wrapped-storage call', dict(witness, events=blocked_while_storage[:3]))
 
 
-def make_execution(w, fail_at, holder):
+def make_execution(w, fail_at, holder, close_timeout=None):
     """Returns make(sched) for vlib.sched.run_once; holder receives the observation objects."""
     from playback.tape_cassettes.asynchronous import async_record_only_tape_cassette as mod
 
@@ -199,7 +199,7 @@ def make_execution(w, fail_at, holder):
         saved = (mod.Lock, mod.Event, mod.Thread)
         mod.Lock, mod.Event, mod.Thread = sched.Lock, sched.Event, sched.Thread
         try:
-            cas = mod.AsyncRecordOnlyTapeCassette(store, flush_interval=0.1, timeout_on_close=10 ** 7)
+            cas = mod.AsyncRecordOnlyTapeCassette(store, flush_interval=0.1, timeout_on_close=10 ** 7 if close_timeout is None else close_timeout)
         finally:
             mod.Lock, mod.Event, mod.Thread = saved
         lock = env.anchor(cas, '_lock')
@@ -268,10 +268,10 @@ def targets(narrow=False):
     return [m.__file__ for m in ((a,) if narrow else (a, b, c, d))]
 
 
-def explore(ctx, w, fail_at, K, max_fires, n_random, max_dfs=None, shard=None):
+def explore(ctx, w, fail_at, K, max_fires, n_random, max_dfs=None, shard=None, close_timeout=None):
     tg = targets()
     holder = {}
-    make = make_execution(w, fail_at, holder)
+    make = make_execution(w, fail_at, holder, close_timeout=close_timeout)
     stats = {'runs': 0}
 
     def on_run(rec, prefix):
@@ -290,7 +290,10 @@ def explore(ctx, w, fail_at, K, max_fires, n_random, max_dfs=None, shard=None):
         if rec.error is not None:
             ctx.violation('close()/producer raised %s' % type(rec.error).__name__, dict(witness, error=repr(rec.error)[:200]))
             return
-        judge(ctx, w, holder['store'], holder['append_order'], holder['blocked'], holder['close_with'][0], witness, fail_at)
+        # with a finite timeout_on_close the join may expire: then close() may return early (not judged), but every write is still
+        # applied exactly once and in request order once the flusher has finished
+        judge(ctx, w, holder['store'], holder['append_order'], holder['blocked'], holder['close_with'][0] if close_timeout is None else None,
+              dict(witness, close_timeout=close_timeout), fail_at)
         # instances are independent: a cassette created later in the process must not touch what an earlier, closed one stored
         prev = stats.get('prev')
         if prev is not None and len(prev[0].applied) != prev[1]:
@@ -352,12 +355,16 @@ def run(ctx):
                 ({'producers': 3, 'recordings': 2, 'writes': 3}, None, 0, 2, 8000, 5000)]
         for fail_at in range(1, 7):
             plan.append(({'producers': 2, 'recordings': 1, 'writes': 2}, fail_at, 1, 1, 1500, 20000))
+    plan = [p + (None,) for p in plan]
+    # timeout_on_close expiring (the join of the flusher is a timed wait whose timer may fire): exactly-once and order still hold
+    plan.append(({'producers': 1, 'recordings': 1, 'writes': 2}, None, 1, 2, 150 if ctx.quick else 3000, 400 if ctx.quick else 20000, 5.0))
+    plan.append(({'producers': 2, 'recordings': 1, 'writes': 1}, None, 1 if not ctx.quick else 0, 2, 150 if ctx.quick else 3000, 300 if ctx.quick else 20000, 5.0))
     all_complete = True
-    for w, fail_at, K, F, nrand, maxdfs in plan:
+    for w, fail_at, K, F, nrand, maxdfs, close_timeout in plan:
         nr = nrand // ctx.nshards + (1 if ctx.shard < nrand % ctx.nshards else 0)
-        c = explore(ctx, w, fail_at, K, F, nr, max_dfs=(maxdfs // ctx.nshards + 1) if shard else maxdfs, shard=shard)
+        c = explore(ctx, w, fail_at, K, F, nr, max_dfs=(maxdfs // ctx.nshards + 1) if shard else maxdfs, shard=shard, close_timeout=close_timeout)
         all_complete = all_complete and c
-        ctx.sample({'workload': w, 'fail_at': fail_at, 'K': K, 'F': F, 'dfs_complete': c})
+        ctx.sample({'workload': w, 'fail_at': fail_at, 'K': K, 'F': F, 'timeout_on_close': close_timeout, 'dfs_complete': c})
     ctx.note('bounded_dfs_complete_for_all_workloads', all_complete)
     if ctx.shard == 0:
         stress(ctx, 100 if ctx.quick else 2000)
@@ -371,8 +378,8 @@ def replay(ctx, wit):
         return
     w, fail_at = wit['workload'], wit['fail_at']
     holder = {}
-    make = make_execution(w, fail_at, holder)
+    make = make_execution(w, fail_at, holder, close_timeout=wit.get('close_timeout'))
     sch = wit['schedule']
     strat = S.strategy_from(sch)
     rec = S.run_once(make, strat, targets(), max_fires=wit.get('max_fires', 2))
-    judge(ctx, w, holder['store'], holder['append_order'], holder['blocked'], holder['close_with'][0], wit, fail_at)
+    judge(ctx, w, holder['store'], holder['append_order'], holder['blocked'], holder['close_with'][0] if wit.get('close_timeout') is None else None, wit, fail_at)
